@@ -900,6 +900,10 @@ class C07(SimCheck):
             simgen.set_handler(scn["cfg"], "mobility", False)
         if r.random() < 0.2:
             scn = simgen.make_decimal(scn)       # timers at non-dyadic times, set at every moment of the run
+        elif r.random() < 0.2:
+            # fine regime: a timer one tick (9e-13 s) in the past is in the past - refused, never moved to "now"
+            # (seeded C07_L: a 1e-9 "float noise" tolerance in the timer handler's own past-check)
+            scn = simgen.make_fine(scn)
         if r.random() < 0.12:
             scn = simgen.make_crowd(scn, r)      # (node, name) pairs that are spelt alike
         if r.random() < 0.25 and scn.get("tick") is None and not scn["cfg"]["hasMob"]:
@@ -1216,6 +1220,25 @@ class C12(SimCheck):
             for node in range(n):
                 if got[node] > 1 or (got[node] == 0 and not (lastgroup and cut)):
                     fails.append(("C12:count", f"node {node} got {got[node]} telemetry callbacks for the update at {t}"))
+        # independent of the telemetry callbacks themselves: the after-step hooks report the time of every executed
+        # event; once the run has moved beyond k*dt, the update due at k*dt and the telemetry events it created (all due
+        # at k*dt) have been executed - every node must have received exactly one telemetry at k*dt, also when none was
+        # delivered at all (seeded C12_L: the telemetry of this simulation handed to another one's nodes)
+        hooks = [e[3] for e in trace if e[0] == "after" and is_int(e[3])]
+        if hooks and cfg.get("hasTimer") and is_int(dt) and dt > 0:
+            reached = max(hooks)
+            k = 1
+            while k * dt < reached and k <= 4000:
+                got = Counter(c["n"] for c in per_time.get(k * dt, []))
+                for node in range(n):
+                    if got[node] != 1:
+                        fails.append(("C12:count", f"the run went on to time {reached} but node {node} got {got[node]} "
+                                      f"telemetry callbacks for the update at {k * dt}"))
+                        break
+                else:
+                    k += 1
+                    continue
+                break
         # a run cut by the duration alone delivers the telemetry of every update due up to and
         # including the duration (events due exactly at the duration still run)
         D = cfg["duration"]
